@@ -1735,9 +1735,9 @@ def c03_phases(ctx):
 
 def c03_phases_with_sign_mut(ctx):
     ph = c03_phases(ctx)
-    if ctx["tier"] != "quick":
+    if True:
         groups = []
-        for ai, alg in enumerate(ALGS):
+        for ai, alg in enumerate(ALGS if ctx["tier"] != "quick" else ALGS[1::3]):
             n = N_OF[alg]
             name = "c03/signmut/%s" % alg
             params = [(4, 2), ([2, 4, 8, 1][ai % 4], 2)]
